@@ -1787,7 +1787,7 @@ pub fn generate(seed: u64) -> FldSpec {
                     // aimed at the lazy-reduction multiplier: both operands get components whose
                     // stored Montgomery limbs lie just below q (or at other limb patterns), so the
                     // interleaved sum of products accumulates its maximal carries
-                    let mut near = |pr: &mut Prng| -> Vec<u8> {
+                    let near = |pr: &mut Prng| -> Vec<u8> {
                         let l = match pr.below(6) {
                             0 => limb_patterns(pr, q),
                             1 => q - 1u32 - pr.below(4),
